@@ -7,7 +7,7 @@ typed receivers, which covers every self.child.<m>() of a wrapping collector).
 import ast
 
 from ..report import rule
-from .. import pm, norm, cfg as cfgmod, guards
+from .. import pm, norm, cfg as cfgmod, guards, paths, cases
 from ..model import AnalysisError
 from .common import calls_of, find_calls, returns_of, is_abstract_body, bind_args
 
@@ -33,51 +33,65 @@ def c14_r1(ctx):
     cm = cls.methods["collect_matches"]
     ctx.saw(ai)
     ctx.saw(cm)
-    t1 = _discard_tests(ai)
-    t2 = _discard_tests(cm)
-    ok = len(t1) == 1 and len(t2) == 1
+    # both predicates as functions of "the global document number" D:
+    #   all_ids: D is the loop variable over child.all_ids(), a document is kept where it is yielded;
+    #   collect_matches: D is self.offset + <loop variable over child.matches()>, kept where child.collect(<that variable>) runs.
+    # The keep condition is read off the if-structure around the keep site (whatever its shape: `if bad: continue`, `if ok: keep`,
+    # if/else), and the two are compared as boolean functions of their atoms.
+    import copy as _copy
+    D = ast.Name(id="D", ctx=ast.Load())
+    lp1 = [lp for lp in ast.walk(ai.node) if isinstance(lp, ast.For) and isinstance(lp.target, ast.Name)
+           and any(norm.call_name(c) == "all_ids" for c in norm.calls_in(lp.iter))]
+    lp2 = [lp for lp in ast.walk(cm.node) if isinstance(lp, ast.For) and isinstance(lp.target, ast.Name)
+           and any(norm.call_name(c) == "matches" for c in norm.calls_in(lp.iter))]
+    ok = len(lp1) == 1 and len(lp2) == 1
     a = b = ""
     same = False
+    keeps = []
     if ok:
-        # both predicates as functions of "the global document number" D:
-        #   all_ids: D is the loop variable over child.all_ids();  collect_matches: D is self.offset + <loop variable over child.matches()>
-        D = ast.Name(id="D", ctx=ast.Load())
-        lv1 = [lp.target.id for lp in ast.walk(ai.node) if isinstance(lp, ast.For) and isinstance(lp.target, ast.Name)
-               and any(norm.call_name(c) == "all_ids" for c in norm.calls_in(lp.iter))]
-        lv2 = [lp.target.id for lp in ast.walk(cm.node) if isinstance(lp, ast.For) and isinstance(lp.target, ast.Name)
-               and any(norm.call_name(c) == "matches" for c in norm.calls_in(lp.iter))]
-        e1 = norm.substitute(norm.inline_defs(t1[0], ai.node), dict((v, D) for v in lv1))
-        e2 = norm.inline_defs(t2[0], cm.node)
+        v1, v2 = lp1[0].target.id, lp2[0].target.id
+        k1 = paths.reach_condition(lp1[0].body, lambda st: isinstance(st, ast.Expr) and isinstance(st.value, ast.Yield)
+                                   and isinstance(st.value.value, ast.Name) and st.value.value.id == v1)
+        k2 = paths.reach_condition(lp2[0].body, lambda st: isinstance(st, ast.Expr) and isinstance(st.value, ast.Call)
+                                   and norm.call_name(st.value) == "collect" and len(st.value.args) == 1
+                                   and isinstance(st.value.args[0], ast.Name) and st.value.args[0].id == v2)
+        ok = k1 is not None and k2 is not None
+    if ok:
+        e1 = norm.substitute(norm.inline_defs(k1, ai.node), {v1: D})
+        e2 = norm.inline_defs(k2, cm.node)
 
         class _G(ast.NodeTransformer):
             def visit_BinOp(self, n):
                 self.generic_visit(n)
-                if isinstance(n.op, ast.Add) and lv2 and norm.canon(n) in ("(%s + self.offset)" % lv2[0], "(self.offset + %s)" % lv2[0]):
+                if isinstance(n.op, ast.Add) and norm.canon(n) in ("(%s + self.offset)" % v2, "(self.offset + %s)" % v2):
                     return D
                 return n
-        import copy as _copy
         e2 = _G().visit(_copy.deepcopy(e2))
+        al1, al2 = norm.aliases(ai.node), norm.aliases(cm.node)
+        e1, e2 = norm.substitute(e1, al1), norm.substitute(e2, al2)
         a, b = norm.canon(e1), norm.canon(e2)
-        same = a == b and "D" in norm.names_in(e1) and len(lv1) == 1 and len(lv2) == 1
+        eqv, atoms = paths.equivalent(e1, e2, norm.canon)
+        same = eqv is True and any("D" in norm.names_in(norm.parse_expr(t)) for t in atoms) and v2 not in norm.names_in(e2)
+        keeps = [(ai, e1), (cm, e2)]
     ctx.ob(cls, ok and same, "all_ids() and collect_matches() use the same discard predicate",
-           detail="all_ids: %s ; collect_matches: %s" % (a, b), loc=ai.loc)
-    for f, tests in ((ai, t1), (cm, t2)):
-        for t in tests:
-            bad = []
-            fal = norm.aliases(f.node)
-            for n in ast.walk(t):
-                if isinstance(n, ast.BoolOp) and isinstance(n.op, ast.And):
-                    for first in n.values:
-                        if isinstance(first, (ast.Name, ast.Attribute)) and norm.canon(first, fal) in ("self._allow", "self._restrict", "self.allow", "self.restrict"):
-                            bad.append(norm.canon(first, fal).split(".")[-1])
-            ctx.ob(f, not bad, "presence of the allow/restrict set is tested with `is not None`",
-                   detail="truthiness test on %s: an empty set (a filter matching no document) disables the filter" % bad if bad else "")
+           detail="kept in all_ids iff %s ; kept in collect_matches iff %s" % (a, b), loc=ai.loc)
+    for f, e in keeps:
+        bad = [t.split(".")[-1] for t in paths.bool_atoms(e, norm.canon) if t in ("self._allow", "self._restrict", "self.allow", "self.restrict")]
+        ctx.ob(f, not bad, "presence of the allow/restrict set is tested with `is not None`",
+               detail="truthiness test on %s: an empty set (a filter matching no document) disables the filter" % bad if bad else "")
     # prepare builds the sets under the same notion... a filter that is an empty *query* still yields a (possibly empty) set
     pr = cls.methods["prepare"]
-    sets = {norm.canon(st.targets[0]): norm.deep_canon(st.value, pr.node) for st in ast.walk(pr.node)
-            if isinstance(st, ast.Assign) and norm.canon(st.targets[0]) in ("self._allow", "self._restrict")}
-    ctx.ob(pr, sets == {"self._allow": "(top_searcher._filter_to_comb(self.allow) if self.allow else None)",
-                        "self._restrict": "(top_searcher._filter_to_comb(self.restrict) if self.restrict else None)"},
+    fpr = guards.Facts(pr)
+    sets = {}
+    for n_ in fpr.g.nodes:
+        a_ = n_.ast
+        if n_.kind == "stmt" and isinstance(a_, ast.Assign) and norm.canon(a_.targets[0]) in ("self._allow", "self._restrict"):
+            facts = sorted(t for t in (fpr.at(n_) or []) if t[1] in ("self.allow", "self.restrict"))
+            sets.setdefault(norm.canon(a_.targets[0]), set()).add((norm.deep_canon(a_.value, pr.node), tuple(facts)))
+    want = {"self._allow": {("top_searcher._filter_to_comb(self.allow)", (("T", "self.allow"),)), ("None", (("F", "self.allow"),))},
+            "self._restrict": {("top_searcher._filter_to_comb(self.restrict)", (("T", "self.restrict"),)), ("None", (("F", "self.restrict"),))}}
+    # the conditional-expression form was normalised into the same two guarded assignments at load time
+    ctx.ob(pr, sets == want,
            "prepare() converts the user's filter/mask objects into docnum sets (None when not given)")
 
 
@@ -208,14 +222,15 @@ def c14_r6(ctx):
     for f in prog.functions.values():
         if f.module.name not in ("whoosh.sorting", "whoosh.searching", "whoosh.reading"):
             continue
+        fal = norm.aliases(f.node)
         for st in ast.walk(f.node):
             if not (isinstance(st, ast.Assign) and isinstance(st.targets[0], ast.Subscript)
-                    and norm.canon(st.targets[0].value).endswith("._field_caches")):
+                    and norm.canon(st.targets[0].value, fal).endswith("._field_caches")):
                 continue
             n += 1
             ctx.saw(f)
             keynames = norm.names_in(st.targets[0].slice)
-            owner = norm.canon(st.targets[0].value).split(".")[0]
+            owner = norm.canon(st.targets[0].value, fal).split(".")[0]
             params = set(f.params[1:]) - keynames - {owner}
             # self attributes assigned from those parameters
             tainted_attrs = set()
@@ -270,12 +285,40 @@ def c14_r7(ctx):
                 adds.append("insort")
         ctx.ob(f, bool(adds) and all(a == "insort" for a in adds), "`%s` is filled only with insort()" % name,
                detail="additions: %s" % adds)
-    # the comparison that evicts: new key strictly better than the worst kept
+    # the comparison that evicts: new key strictly better than the worst kept.  Whatever the shape of the branches (a flag,
+    # nested ifs, early continue): the eviction runs only where `sortkey < best[-1][0]` is known, and the new entry is
+    # inserted only where the list had room or that comparison held.
     A = pm.Alpha(f)
-    cmps = [n.test for n in ast.walk(f.node) if isinstance(n, ast.If) and any("%s[(-1)]" % nm_ in norm.canon(n.test) for nm_ in extremes)]
     ins = [c for c in norm.calls_in(f.node) if norm.call_name(c) == "insort"]
-    ok = len(cmps) == 1 and len(ins) == 1 and A.eq(ins[0], "insort(best, (sortkey, global_docnum))") and A.eq(cmps[0], "sortkey < best[-1][0]")
-    ctx.ob(f, ok, "a kept document is evicted only for a strictly smaller sort key", detail=str([A.text(c) for c in cmps]))
+    ok = len(ins) == 1 and A.eq(ins[0], "insort(best, (sortkey, global_docnum))")
+    detail = ""
+    if ok:
+        fa = guards.Facts(f)
+        def fact_text(pattern):
+            # the text under which the facts engine records a comparison matching `pattern` (any spelling of it)
+            for x in ast.walk(f.node):
+                if isinstance(x, ast.Compare):
+                    _, e = guards.positive("T", x)
+                    if A.eq(e, pattern, al=True):
+                        return fa.textfn(e)
+            return "<no test of %s>" % pattern
+        better = fact_text("sortkey < best[-1][0]")
+        room = fact_text("len(best) < ANY")
+        pops = [c for c in norm.calls_in(f.node) if norm.call_name(c) == "pop" and A.eq(norm.receiver(c), "best")]
+        ok = len(pops) == 1
+        for c in pops:
+            n = fa.node_of(c)
+            alts = fa.alternatives(n) if n is not None else None
+            if not alts or not all(("T", better) in alt for alt in alts):
+                ok = False
+                detail = "the worst kept entry is popped without knowing %s: %s" % (better, [sorted(a_) for a_ in alts or []][:3])
+        n = fa.node_of(ins[0])
+        alts = fa.alternatives(n) if n is not None else None
+        if not alts or not all(("T", better) in alt or ("T", room) in alt for alt in alts):
+            ok = False
+            detail = detail or "an entry is inserted on a path with neither room (%s) nor a better key (%s): %s" % (
+                room, better, [sorted(a_) for a_ in alts or [] if not (("T", better) in a_ or ("T", room) in a_)][:3])
+    ctx.ob(f, ok, "a kept document is evicted only for a strictly smaller sort key", detail=detail)
 
 
 MUST_CONSULT = {
@@ -320,13 +363,16 @@ def c14_r8(ctx):
     rp = prog.method("searching.ResultsPage", "__init__", inherited=False)
     ctx.saw(rp)
     pn = rp.params[2] if len(rp.params) > 2 else None
-    clamp = [st for st in rp.node.body if isinstance(st, ast.Assign) and any(norm.canon(t) == "self.pagenum" for t in st.targets)]
+    # forward substitution: what self.pagenum and self.offset hold at the end, in terms of the parameters
+    env, _ = cases.symbolic(rp.node)
+    env = env or {}
+    clamped = env.get("self.pagenum", cases.UNKNOWN)
+    off = env.get("self.offset", cases.UNKNOWN)
     ok = False
-    detail = ""
-    if pn and len(clamp) == 1 and any(norm.call_name(c) == "min" for c in norm.calls_in(clamp[0].value)):
-        idx = rp.node.body.index(clamp[0])
-        later = [norm.stmt_text(st) for st in rp.node.body[idx + 1:]
-                 if any(isinstance(x, ast.Name) and x.id == pn and isinstance(x.ctx, ast.Load) for x in ast.walk(st))]
-        ok = not later
-        detail = "raw `%s` used after the clamp: %s" % (pn, later) if later else ""
+    detail = "self.pagenum = %s; self.offset = %s" % (clamped[-1], off[-1])
+    if pn and clamped[0] == "sym" and off[0] == "sym" and clamped[1].startswith("min(") and pn in norm.names_in(norm.parse_expr(clamped[1])):
+        rest = off[1].replace(clamped[1], "CLAMPED")
+        ok = "CLAMPED" in rest and pn not in norm.names_in(norm.parse_expr(rest))
+        if not ok:
+            detail = "the offset is computed from the raw `%s`, not from the clamped value: %s" % (pn, detail)
     ctx.ob(rp, ok, "offset and length are computed from the clamped self.pagenum", detail=detail)
